@@ -133,6 +133,12 @@ def base_list(tier, seed):
             out.append({'kind': 'coneqp', 'dims': d, 'n': n, 'p': p, 'init': None, 'refinement': None, 'variant': seed})
             if tier == 'thorough' or p == 0:
                 out.append({'kind': 'coneqp', 'dims': d, 'n': n, 'p': p, 'init': ['x', 's', 'y', 'z'], 'refinement': 1, 'variant': seed + 1})
+    # conelp / coneqp with a user-defined vector type for x (operators G, A as functions, xnewcopy / xdot / xaxpy / xscal,
+    # own KKT solver): the failure handlers must treat x through the user's operations as well
+    for kd in ('conelp', 'coneqp'):
+        for (dd, n, p) in (({'l': 2, 'q': [], 's': []}, 3, 1), ({'l': 1, 'q': [2], 's': [2]}, 3, 0), ({'l': 1, 'q': [2], 's': [2]}, 3, 1)):
+            out.append({'kind': kd, 'dims': dd, 'n': n, 'p': p, 'start': None, 'init': None, 'refinement': None, 'variant': seed,
+                        'customx': True})
     # coneqp without inequalities: one direct KKT solve (start-up protocol: the documented ValueError about rank)
     for (n, p) in ((2, 1), (2, 0), (3, 2)):
         out.append({'kind': 'coneqp', 'dims': {'l': 0, 'q': [], 's': []}, 'n': n, 'p': p, 'init': None, 'refinement': None, 'variant': seed})
@@ -164,6 +170,101 @@ def cases(tier, seed, flavour):
         yield {'base': b, 'tier': tier, 'idx': i}
 
 
+class XVec(object):
+    """a user-defined primal vector: two blocks kept as separate cvxopt matrices."""
+    def __init__(self, a, b):
+        self.a, self.b = a, b
+
+    def flat(self):
+        from cvxopt import matrix
+        return matrix(list(self.a) + list(self.b))
+
+    def load(self, m):
+        na = len(self.a)
+        self.a[:] = m[:na]
+        self.b[:] = m[na:]
+
+
+def _call_customx(inst, kind, flt, opts):
+    """conelp / coneqp in operator form over XVec, KKT solver = the built-in 'ldl' factory on the dense data wrapped with
+    the fault plan.  Returns the result with 'x' converted back to a matrix (or the exception)."""
+    from cvxopt import solvers, matrix, blas, misc, base
+    from mc import cvx
+    d = inst['dims']
+    cvec = inst['c'] if kind == 'conelp' else inst['q']
+    n, p = len(cvec), len(inst['A'])
+    N = R.cdim(d)
+    Gm = cvx.from_cols(inst['G'], N)
+    Am = matrix([inst['A'][i][j] for j in range(n) for i in range(p)], (p, n), 'd') if p else matrix(0.0, (0, n))
+    hm, bm = cvx.dmat(solve.lower_sym(inst['h'], d)), cvx.dmat(inst['b'])
+    na = 1
+
+    def X(lst):
+        return XVec(matrix(lst[:na]), matrix(lst[na:]))
+    c = X([float(t) for t in cvec])
+
+    def xnewcopy(u): return XVec(+u.a, +u.b)
+    def xdot(u, v): return blas.dot(u.a, v.a) + blas.dot(u.b, v.b)
+    def xaxpy(u, v, alpha=1.0):
+        blas.axpy(u.a, v.a, alpha=alpha); blas.axpy(u.b, v.b, alpha=alpha)
+    def xscal(alpha, u):
+        blas.scal(alpha, u.a); blas.scal(alpha, u.b)
+
+    def op(M, sgemv):
+        def f(u, v, alpha=1.0, beta=0.0, trans='N'):
+            if trans == 'N':
+                uf = u.flat()
+                if sgemv:
+                    misc.sgemv(M, uf, v, d, alpha=alpha, beta=beta)
+                else:
+                    base.gemv(M, uf, v, alpha=alpha, beta=beta)
+            else:
+                vf = v.flat()
+                if sgemv:
+                    misc.sgemv(M, u, vf, d, trans='T', alpha=alpha, beta=beta)
+                else:
+                    base.gemv(M, u, vf, trans='T', alpha=alpha, beta=beta)
+                v.load(vf)
+        return f
+    fG, fA = op(Gm, True), op(Am, False)
+    if kind == 'conelp':
+        fac = misc.kkt_ldl(Gm, d, Am)
+    else:
+        Pm = matrix([inst['P'][i][j] for j in range(n) for i in range(n)], (n, n), 'd')
+        fac = misc.kkt_ldl(Gm, d, Am)
+
+        def fP(u, v, alpha=1.0, beta=0.0):
+            uf, vf = u.flat(), v.flat()
+            base.symv(Pm, uf, vf, alpha=alpha, beta=beta)
+            v.load(vf)
+
+    def kk(W):
+        flt.factor()
+        g = fac(W) if kind == 'conelp' else fac(W, Pm)
+
+        def sv(x, y, z):
+            flt.solve()
+            xf = x.flat()
+            g(xf, y, z)
+            x.load(xf)
+        return sv
+    o = {'show_progress': False}
+    o.update(opts or {})
+    try:
+        if kind == 'conelp':
+            sol = solvers.conelp(c, fG, hm, d, fA, bm, kktsolver=kk, xnewcopy=xnewcopy, xdot=xdot, xaxpy=xaxpy, xscal=xscal,
+                                 options=o)
+        else:
+            sol = solvers.coneqp(fP, c, fG, hm, d, fA, bm, kktsolver=kk, xnewcopy=xnewcopy, xdot=xdot, xaxpy=xaxpy, xscal=xscal,
+                                 options=o)
+    except Exception as e:
+        return e
+    if isinstance(sol.get('x'), XVec):
+        sol = dict(sol)
+        sol['x'] = sol['x'].flat()
+    return sol
+
+
 # ------------------------------------------------------------------------------------------------ running one plan
 def _setup(b):
     """returns (runner(flt, refuse) -> (result, rec), judge helpers)."""
@@ -178,6 +279,8 @@ def _setup(b):
         builtin = 'ldl'
 
         def runner(flt, refuse=None):
+            if b.get('customx'):
+                return _call_customx(inst, 'conelp', flt, opts), None
             return solve.call(inst, cfg, kktsolver_obj=_kkt_conelp(inst, flt, builtin))[0], None
         return inst, cfg, runner
     if b['kind'] == 'coneqp':
@@ -192,6 +295,8 @@ def _setup(b):
         cfg = {'entry': 'coneqp', 'storage': 'dense', 'kkt': 'ref', 'init': b['init'], 'opts': opts}
 
         def runner(flt, refuse=None):
+            if b.get('customx'):
+                return _call_customx(inst, 'coneqp', flt, opts), None
             return qpsolve.call(inst, cfg, kktsolver_obj=_kkt_coneqp(inst, flt, 'ldl'))[0], None
         return inst, cfg, runner
     pb = [p for p in nlsolve.base_problems(b['seed']) if p['tag'] == b['tag']][0]
